@@ -70,8 +70,14 @@ def all_children_rule(ctx: Ctx, rid: str):
                      and x.args and isinstance(x.args[0], ast.Constant) and x.args[0].value in ("start", "end") for x in ast.walk(n.ast.value))]
     if not reads:
         raise AnchorMissing("scheduleContainer: reads of the children's dates not found")
+    from ..order import local_resolver
     for n in reads:
-        cl = facts.holds(n, lambda t, p: p is True and sched_read(t) and t.startswith(child + "."))
+        # the child's scenario object carries the same flag (`child.data[sc].scheduled`, set together with the attribute when a
+        # walk succeeds; never set for a task that was not placed): a test on it is at least as strict
+        res_sc = local_resolver(sc.node)
+        sc_names = {nm.id for nm in ast.walk(sc.node) if isinstance(nm, ast.Name) and any(norm(v).startswith(child + ".data[") for v in res_sc(nm))}
+        cl = facts.holds(n, lambda t, p: p is True and ((sched_read(t) and t.startswith(child + ".")) or
+                                                        any(t == f"{nm}.scheduled" for nm in sc_names)))
         ok = cl is not None
         ctx.ob(rid, f"{sc.qual}: {norm(n.ast)[:60]} under {sorted(cl) if cl else 'no scheduled-fact'}", (sc, n.ast), ok,
                "a child's dates enter the span only when that child is known to be scheduled" if ok else
@@ -98,6 +104,71 @@ def all_children_rule(ctx: Ctx, rid: str):
                "the test ranges over all children, unfiltered" if ok else
                "the all-children test is filtered or weakened: a container can be closed although one of its children is not scheduled",
                key=key_of(rid, upd, None, "all children"))
+
+
+def _redundant_rollups(ctx: Ctx):
+    """Containers are summarised twice: by the roll-up that runs while leaves are placed (Project._updateContainerTaskStatus, mechanism
+    A) and by the final pass (finishScenario -> finishScheduling -> scheduleContainer, mechanism B), which runs last, visits every
+    container children-first and writes unconditionally.  For the END STATE C10 speaks about:
+      * if every obligation of B holds, B overwrites the dates A wrote: a failing obligation of A about values, order or timing
+        cannot break C10 (it can delay a dependant on a container -- that is C04 / C07, which evaluate the roll-up rules on their
+        own).  A's completeness test stays in force: B closes containers, it never re-opens one that A closed too early;
+      * if every obligation of A holds, every container that is complete was already closed correctly when its last child was
+        placed: B not being *reached* (a path that skips the final pass) cannot break C10.  B's own obligations about what it
+        writes stay in force, because B writes last.
+    Failing obligations that the other mechanism covers are kept in the evidence as information, not as violations."""
+    def mech(o):
+        t = o.instance
+        if o.rule in ("R10.7", "R10.8") or t.startswith("Project._updateContainerTaskStatus"):
+            return "A"
+        if t.startswith("TaskScenario.scheduleContainer") or t.startswith("TaskScenario.finishScheduling") \
+                or t.startswith("Project.finishScenario") or "finishScenario post-dominates" in t:
+            return "B"
+        return None
+    rules = ("R10.2", "R10.3", "R10.4", "R10.5", "R10.7", "R10.8", "R10.10")
+    obs = [o for o in ctx.obs if o.rule in rules and not o.info and mech(o)]
+    a_ok = all(o.holds for o in obs if mech(o) == "A")
+    b_ok = all(o.holds for o in obs if mech(o) == "B")
+    for o in obs:
+        if o.holds is False:
+            # (a completeness test of A that is too lax is NOT repaired: B never takes a `scheduled` flag back)
+            if mech(o) == "A" and b_ok and o.rule not in ("R10.3", "R10.10"):
+                o.info = True
+                o.detail += "  [not a violation of C10: the final pass (scheduleContainer, all obligations hold) rewrites every container last]"
+            elif mech(o) == "B" and a_ok and (o.rule == "R10.4" and ("post-dominates" in o.instance or o.instance.startswith("Project.finishScenario")
+                                                                      or o.instance.startswith("TaskScenario.finishScheduling"))):
+                o.info = True
+                o.detail += "  [not a violation of C10: every complete container was closed by the roll-up that follows each placement (all its obligations hold)]"
+
+
+def rollup_accumulator_rule(ctx: Ctx, rid: str, which=("upd", "sc")):
+    """The roll-ups take the earliest child start (min-accumulator) and the latest child end (max-accumulator) over the children
+    (C10 R10.2; C04 R04.14 for the roll-up that runs while leaves are placed -- its dates are what a dependant on a container reads)."""
+    upd = ctx.repo.func("Project._updateContainerTaskStatus")
+    sc = ctx.repo.func("TaskScenario.scheduleContainer")
+    for fn, exp in [p_ for p_ in ((upd, {"min_start": "child_start", "max_end": "child_end"}), (sc, {"n_start": "child_start", "n_end": "child_end"}))
+                    if (p_[0] is upd and "upd" in which) or (p_[0] is sc and "sc" in which)]:
+        found = {}
+        for (i, acc, cand) in _accs(fn):
+            if acc in exp and cand == exp[acc]:
+                parts = []
+                for x in ast.walk(i.test):
+                    if isinstance(x, ast.Compare) and len(x.ops) == 1 and not isinstance(x.ops[0], (ast.Is, ast.IsNot)):
+                        parts.append(x)
+                tab = order_table(parts[0], lambda e: isinstance(e, ast.Name) and e.id == cand,
+                                  lambda e: isinstance(e, ast.Name) and e.id == acc) if parts else None
+                want = {"<": True, "=": False, ">": False} if "start" in acc else {"<": False, "=": False, ">": True}
+                okk = tab is not None and tab["<"] == want["<"] and tab[">"] == want[">"]
+                found[acc] = True
+                ctx.ob(rid, f"{fn.qual}: {acc} <- {norm(i.test)[:70]}", (fn, i), okk,
+                       ("earliest child start (min-accumulator)" if "start" in acc else "latest child end (max-accumulator)") if okk else
+                       f"roll-up accumulator for {acc} has the wrong direction ({tab})", key=f"{rid}|{fn.qual}|{acc}")
+        if len(found) != 2:
+            raise AnchorMissing(f"{fn.qual}: roll-up accumulators found {sorted(found)}")
+        # loop over the children
+        loops = [l for l in own_nodes(fn) if isinstance(l, ast.For) and "children" in norm(l.iter)]
+        ctx.ob(rid, f"{fn.qual}: roll-up iterates the children", fn, bool(loops), "for child in children" if loops else
+               "roll-up does not iterate the container's children", key=f"{rid}|{fn.qual}|children")
 
 
 def run_extra(ctx: Ctx):
@@ -279,35 +350,13 @@ def run(ctx: Ctx):
     from .c07 import rollup_rules
     rollup_rules(ctx, "R10.8")
     ctx.floor("R10.8", 2)
-    # ---------------------------------------------------------------- R10.2
-    for fn, exp in ((upd, {"min_start": "child_start", "max_end": "child_end"}), (sc, {"n_start": "child_start", "n_end": "child_end"})):
-        found = {}
-        for (i, acc, cand) in _accs(fn):
-            if acc in exp and cand == exp[acc]:
-                parts = []
-                for x in ast.walk(i.test):
-                    if isinstance(x, ast.Compare) and len(x.ops) == 1 and not isinstance(x.ops[0], (ast.Is, ast.IsNot)):
-                        parts.append(x)
-                tab = order_table(parts[0], lambda e: isinstance(e, ast.Name) and e.id == cand,
-                                  lambda e: isinstance(e, ast.Name) and e.id == acc) if parts else None
-                want = {"<": True, "=": False, ">": False} if "start" in acc else {"<": False, "=": False, ">": True}
-                okk = tab is not None and tab["<"] == want["<"] and tab[">"] == want[">"]
-                found[acc] = True
-                ctx.ob("R10.2", f"{fn.qual}: {acc} <- {norm(i.test)[:70]}", (fn, i), okk,
-                       ("earliest child start (min-accumulator)" if "start" in acc else "latest child end (max-accumulator)") if okk else
-                       f"roll-up accumulator for {acc} has the wrong direction ({tab})", key=f"R10.2|{fn.qual}|{acc}")
-        if len(found) != 2:
-            raise AnchorMissing(f"{fn.qual}: roll-up accumulators found {sorted(found)}")
-        # loop over the children
-        loops = [l for l in own_nodes(fn) if isinstance(l, ast.For) and "children" in norm(l.iter)]
-        ctx.ob("R10.2", f"{fn.qual}: roll-up iterates the children", fn, bool(loops), "for child in children" if loops else
-               "roll-up does not iterate the container's children", key=f"R10.2|{fn.qual}|children")
+    rollup_accumulator_rule(ctx, "R10.2")
     # ---------------------------------------------------------------- R10.3 / R10.4
     for fn in (upd, sc):
         for atoms, node, scx, tgt in pattr_writes(ctx, fn, "scheduled"):
             c = ctl_only(atoms)
             # the all-children test itself must control the write (not merely the container's own flag)
-            ok = "pattr:scheduled" in c and "field:children" in c and (("call:all" in c) if fn is upd else True)
+            ok = ("pattr:scheduled" in c or (fn is sc and "field:scheduled" in c)) and "field:children" in c and (("call:all" in c) if fn is upd else True)
             ctx.ob("R10.3", f"{fn.qual}: {norm(node.ast)}", (fn, node.ast), ok,
                    "container marked scheduled only under the all-children-scheduled test" if ok else
                    "a container can be marked scheduled although a child is not", key=f"R10.3|{fn.qual}|scheduled")
@@ -331,6 +380,7 @@ def run(ctx: Ctx):
     ctx.ob("R10.4", f"{fin.qual}: children before the container {kinds}", fin, ok, "post-order: nested containers are summarised bottom-up" if ok else
            "final roll-up does not process children before their container", key="R10.4|finishScheduling|order")
     ctx.floor("R10.10", 3)
+    _redundant_rollups(ctx)
     from .c16 import scenario_default_rule
     scenario_default_rule(ctx, "R10.6")
     ctx.floor("R10.1", 6)
